@@ -19,6 +19,7 @@ import numpy as np
 
 from .. import models
 from ..core import RunResult, adigest, arr_to_json, mix
+from ..driver import pristine_library_state
 from ..sched import Scheduler
 from ..seams import Entropy, entropy_seam, set_global_rngs
 
@@ -79,7 +80,9 @@ def draw_params(st, name):
             dim = d
             mind = d
         else:
-            d0, d1 = st.int_range(1, 4), st.int_range(1, 4)
+            d0, d1 = st.int_range(1, 6), st.int_range(1, 6)
+            if d0 * d1 > 30:
+                d1 = max(1, 30 // d0)
             dim = [d0, d1]
             mind = min(d0, d1)
         k = st.int_range(0, mind)
@@ -95,12 +98,79 @@ def draw_params(st, name):
     raise KeyError(name)
 
 
+def variant_of(st, op):
+    """A neighbour of an earlier generator call: the same call with ONE argument changed minimally (same
+    seed).  Anything the library keeps between calls under a key that ignores that argument collides."""
+    p = dict(op["params"])
+    name = op["name"]
+    choices = []
+    if isinstance(p.get("dim"), list) and len(p["dim"]) == 2:
+        choices.append("swap_dims")
+        choices.append("refactor_dims")
+    if "is_real" in p:
+        choices.append("flip_real")
+    if name == "random_state_vector" or (name == "random_density_matrix" and p.get("k_param") is not None):
+        choices.append("k_plus_minus")
+    if name == "random_povm":
+        choices.append("povm_shape")
+    if name in ("random_states", "random_ginibre"):
+        choices.append("transpose_counts")
+    if isinstance(p.get("dim"), int) and name in ("random_unitary", "random_state_vector"):
+        choices.append("int_to_list")
+    if not choices:
+        return None
+    c = choices[st.draw(len(choices))]
+    if c == "swap_dims":
+        p["dim"] = p["dim"][::-1]
+    elif c == "refactor_dims":
+        tot = p["dim"][0] * p["dim"][1]
+        facs = [[a, tot // a] for a in range(1, 7) if tot % a == 0 and tot // a <= 6 and [a, tot // a] != p["dim"]]
+        if not facs:
+            return None
+        p["dim"] = facs[st.draw(len(facs))]
+        if name == "random_unitary":
+            return None
+    elif c == "flip_real":
+        p["is_real"] = not p["is_real"]
+    elif c == "k_plus_minus":
+        if name == "random_state_vector":
+            mind = min(p["dim"]) if isinstance(p["dim"], list) else p["dim"]
+            p["k_param"] = max(0, min(mind, p["k_param"] + (1 if st.draw(2) else -1)))
+        else:
+            p["k_param"] = max(1, min(p["dim"], p["k_param"] + (1 if st.draw(2) else -1)))
+    elif c == "povm_shape":
+        p["num_inputs"], p["num_outputs"] = max(1, min(3, p["num_outputs"])), max(1, min(4, p["num_inputs"] + 1))
+    elif c == "transpose_counts":
+        if name == "random_states":
+            p["n"], p["d"] = max(1, min(5, p["d"])), max(1, min(6, p["n"]))
+        else:
+            p["dim_n"], p["dim_m"] = p["dim_m"], p["dim_n"]
+    elif c == "int_to_list":
+        p["dim"] = [p["dim"], p["dim"]]
+        if name == "random_state_vector":
+            p["k_param"] = min(p["k_param"], p["dim"][0])
+    if p == op["params"]:
+        return None
+    if name == "random_state_vector":
+        mind = min(p["dim"]) if isinstance(p["dim"], list) else p["dim"]
+        p["k_param"] = min(p["k_param"], mind)
+    return {"op": "gen", "name": name, "params": p, "seed": op["seed"], "seed_form": op.get("seed_form", "int"), "variant": c}
+
+
 def draw_client_ops(st, n_ops, hot):
     """hot: list of (name, params, seed) triples shared by all clients so that the
     same triple recurs within and across clients."""
     ops = []
     for _ in range(n_ops):
-        kind = st.weighted([("gen", 10), ("hot", 8), ("unseeded", 4), ("pgm", 3), ("measure", 3)])
+        kind = st.weighted([("gen", 10), ("hot", 8), ("unseeded", 4), ("pgm", 3), ("measure", 3), ("variant", 6)])
+        if kind == "variant":
+            earlier = [o for o in ops if o["op"] == "gen" and o["seed"] is not None]
+            v = variant_of(st, earlier[st.draw(len(earlier))]) if earlier else None
+            if v is None:
+                kind = "gen"
+            else:
+                ops.append(v)
+                continue
         if kind == "hot":
             name, params, seed = hot[st.draw(len(hot))]
             ops.append({"op": "gen", "name": name, "params": params, "seed": seed, "seed_form": "int"})
@@ -244,7 +314,9 @@ def run(cs, tier, run_index):
                         triples.setdefault(triple_key(name, params, seed, form), (name, params, seed, form))
         ref = {}
         for key, (name, params, seed, form) in triples.items():
-            ref[key] = call_gen(R, name, params, seed, form)
+            # every reference in a pristine library: nothing an earlier reference call left behind is visible
+            with pristine_library_state():
+                ref[key] = call_gen(R, name, params, seed, form)
             log.add("ref", key, outcome_digest(ref[key]))
 
         # ---- clients ---------------------------------------------------------
@@ -362,6 +434,8 @@ def run(cs, tier, run_index):
         for op in ops:
             if op["op"] == "gen" and isinstance(op["params"].get("dim"), list):
                 res.probe("list_dim_used")
+            if op.get("variant"):
+                res.probe("variant_call:" + op["variant"])
     res.probe("entropy_requests", ent.requests)
     res.nontrivial = bool(sch.switches_inside and adv_between and any(v >= 3 for v in counts.values()))
     res.interleaving = sch.interleaving_digest()
